@@ -599,3 +599,7 @@ func valueOrigins(v ssa.Value) []ssa.Value {
 	rec(v)
 	return out
 }
+
+func coreDiag(rule, fn, object, pos, reason string) core.Diag {
+	return core.Diag{Rule: rule, Func: fn, Object: object, Pos: pos, Reason: reason}
+}
